@@ -41,6 +41,9 @@ func c02Scan(out string, flags string) (msg string, finding string) {
 	inClass := false
 	for i := 0; i < len(body); i++ {
 		c := body[i]
+		if inClass && strings.HasPrefix(body[i:], `\t\n\f\r `) {
+			return "Perl white-space class written without the vertical tab", ""
+		}
 		switch {
 		case c == '\\':
 			if i+1 >= len(body) {
@@ -72,9 +75,6 @@ func c02Scan(out string, flags string) (msg string, finding string) {
 			if m := regexp.MustCompile(`^\(\?[-misU]+[:)]`).FindString(body[i:]); m != "" {
 				return fmt.Sprintf("inline flag group %s survives at offset %d", m, i), ""
 			}
-		}
-		if inClass && strings.HasPrefix(body[i:], `\t\n\f\r `) {
-			return "Perl white-space class written without the vertical tab", ""
 		}
 	}
 	if _, err := syntax.Parse(out, syntax.Perl); err != nil {
